@@ -32,6 +32,7 @@ Outs(st, a) ==
                                         \cup {Pos(c, x + j) : x \in NextSet(st, c), j \in 0..(a.n - 1)}, a.n)
       [] a.op = "key_for_path" -> {[k \in 1..a.n |-> Pos(c, a.idx + k - 1)]}
       [] a.op = "new_account" -> {<<Pos(Chain(a.net, a.wt, x, 0), 0)>> : x \in 0..2}
+      [] a.op = "export" -> {<<Pos(Chain(a.net, a.wt, x, 0), 0)>> : x \in 0..1}
       [] OTHER -> {<<>>}
 
 \* one request: refused where it must be, else answered in every way the specification allows
@@ -49,10 +50,11 @@ KeyForPath == Tick /\ \E c \in Chains, i \in 0..MaxIdx :
                  /\ Do(Req("key_for_path", c, 1, i))
                  /\ jumped' = IF last'.ok /\ i \notin Idxs(s, c) /\ i \notin NextSet(s, c) THEN jumped \cup {c} ELSE jumped
 NewAccount == Tick /\ \E c \in Chains \cup Foreign, x \in {-1, 1} : c.ch = 0 /\ c.acct = 0 /\ Do(Req("new_account", Chain(c.net, c.wt, x, 0), 0, 0)) /\ UNCHANGED jumped
+Export     == Tick /\ \E c \in Chains : c.ch = 0 /\ (Watch => Own(cfg, c)) /\ Do(Req("export", c, 0, 0)) /\ UNCHANGED jumped
 MarkUsed   == Tick /\ \E p \in s.keys : Do(Req("mark_used", ChainOf(p), 0, p.idx)) /\ UNCHANGED jumped
 
 Init == s = InitS(cfg) /\ steps = 0 /\ jumped = {} /\ last = [a |-> NoReq, ok |-> TRUE, out |-> <<>>]
-Next == NewKeys \/ GetKeys \/ KeyForPath \/ NewAccount \/ MarkUsed
+Next == NewKeys \/ GetKeys \/ KeyForPath \/ NewAccount \/ MarkUsed \/ Export
 Spec == Init /\ [][Next]_vars
 
 \* ---- invariants
